@@ -39,3 +39,65 @@ mod sse2;
     target_feature = "sse2",
 ))]
 pub(crate) type ChaChaEngine<const R: usize> = sse2::State<R>;
+
+// ---------------------------------------------------------------------------
+// verification hooks (only with `--cfg cryptoxide_verif`): expose the portable
+// engine next to whatever engine the target selected, so both can be driven
+// by the same harness.
+#[cfg(all(
+    cryptoxide_verif,
+    any(target_arch = "x86", target_arch = "x86_64"),
+    target_feature = "sse2",
+))]
+#[path = "reference.rs"]
+mod reference_verif;
+
+#[cfg(cryptoxide_verif)]
+#[allow(missing_docs)]
+pub mod verif_portable {
+    #[cfg(all(
+        any(target_arch = "x86", target_arch = "x86_64"),
+        target_feature = "sse2",
+    ))]
+    use super::reference_verif::State;
+
+    #[cfg(not(all(
+        any(target_arch = "x86", target_arch = "x86_64"),
+        target_feature = "sse2",
+    )))]
+    use super::reference::State;
+
+    /// The portable (reference) ChaCha engine
+    #[derive(Clone)]
+    pub struct Engine<const ROUNDS: usize>(State<ROUNDS>);
+
+    impl<const ROUNDS: usize> Engine<ROUNDS> {
+        pub fn init(key: &[u8], nonce: &[u8]) -> Self {
+            Self(State::init(key, nonce))
+        }
+        pub fn rounds(&mut self) {
+            self.0.rounds()
+        }
+        pub fn add_back(&mut self, initial: &Self) {
+            self.0.add_back(&initial.0)
+        }
+        pub fn set_counter(&mut self, counter: u32) {
+            self.0.set_counter(counter)
+        }
+        pub fn verif_set_counter64(&mut self, counter: u64) {
+            self.0.verif_set_counter64(counter)
+        }
+        pub fn increment(&mut self) {
+            self.0.increment()
+        }
+        pub fn increment64(&mut self) {
+            self.0.increment64()
+        }
+        pub fn output_bytes(&self, output: &mut [u8]) {
+            self.0.output_bytes(output)
+        }
+        pub fn output_ad_bytes(&self, output: &mut [u8; 32]) {
+            self.0.output_ad_bytes(output)
+        }
+    }
+}
